@@ -53,7 +53,12 @@ XalanDOMString::XalanDOMString(
 {
     if (theSource.length() != 0)
     {
-        append(theSource, theStartPosition, theCount);
+        // Use the real length, rather than searching for a null
+        // character, since the string may contain embedded ones.
+        append(
+            theSource,
+            theStartPosition,
+            theCount == size_type(npos) ? theSource.length() - theStartPosition : theCount);
     }
 }
 
